@@ -120,3 +120,11 @@ func ErrStr(err error) string {
 	}
 	return err.Error()
 }
+
+// SysOpts configures NewSys.
+type SysOpts struct {
+	Linear         bool
+	TTL            time.Duration // sys.Forever / sys.Never / finite
+	CheckExistence bool
+	MaxFacts       int
+}
